@@ -56,6 +56,7 @@ def run(F, R):
     queue_modes_rule(F, R, M, 'V9', ['device::socket'])
     v5_fwd(F, R)
     v6_ring(F, R)
+    v6b_is_empty(F, R)
 
 
 def v1_layout(F, R):
@@ -621,6 +622,44 @@ def v6_ring(F, R):
         R.tables += rows
         R.check(bad is None, 'V6', '%s:index-arithmetic' % b['name'], where, 'copies follow modular ring indexing on %d rows (capacity <= 5)' % rows,
                 'ring buffer %s: %s' % (b['name'], bad))
+
+
+def v6b_is_empty(F, R):
+    """The receive ring buffer reports empty exactly when it holds no bytes (the connection manager closes a connection after a
+    peer shutdown once this is true)."""
+    rb = [n for n in F.adts if n.endswith('RingBuffer') and n.startswith('device::socket::')]
+    if not rb:
+        return
+    rb = rb[0]
+    usz = [f['name'] for f in F.adts[rb]['variants'][0]['fields'] if f['ty'] == 'usize']
+    for b in F.bodies.values():
+        if b.get('impl_adt') != rb or not F.handwritten(b) or b['kind'] != 'AssocFn' or b['arg_count'] != 1 or not b.get('sig', '').endswith('-> bool'):
+            continue
+        sg = supergraph(F, b['id'])
+        paths = [p for p in PathEnum(sg).run() if not p.panicked]
+        # which usize field is "used": the one the drain / add functions add the length to - take it from the sibling rule's roles
+        bad = None
+        rows = 0
+        for used in (0, 1, 5):
+            for other in (0, 3):
+                got = set()
+                for uf in usz:
+                    def leaf(t, uf=uf):
+                        if t[0] in ('load0', 'load') and t[1][2] and t[1][2][-1][0] == 'f':
+                            return used if t[1][2][-1][1] == uf else other
+                        raise Unfoldable(fmt(t)[:60])
+                    fo = Folder(leaf)
+                    try:
+                        hit = [p for p in paths if path_holds(fo, p)]
+                        got.add(fo.ev(hit[0].ret) if len(hit) == 1 else None)
+                    except Unfoldable:
+                        got.add(None)
+                rows += 1
+                # for the right choice of "used" field the answer is (used == 0); some field must give that for every row
+                if int(used == 0) not in got:
+                    bad = 'with %d bytes buffered the buffer reports empty=%s' % (used, sorted(got, key=str))
+        R.tables += rows
+        R.check(bad is None, 'V6', '%s:empty-iff-no-bytes' % b['id'], fn_site(F, b['id']), 'empty exactly when no bytes are buffered', 'ring buffer %s: %s' % (b['name'], bad))
 
 
 def ring_roles(paths, usz):
